@@ -446,11 +446,14 @@ func (c *client) closeByServer(packet *protocol.Packet) {
 		c.Logger.Errorf("close by server, code: %v, reason: %s", reason.Code, reason.Reason)
 	}
 
+	// do not hold the lock while closing: the close callback takes the write lock to reconnect
 	c.RLock()
-	if c.conn != nil {
-		c.conn.Close(errors.New("close by server"))
-	}
+	conn := c.conn
 	c.RUnlock()
+
+	if conn != nil {
+		conn.Close(errors.New("close by server"))
+	}
 
 	c.reconnecting()
 }
